@@ -46,7 +46,15 @@ struct Case {
     pool_dep: u64,
 }
 
-const WD: [&[(bool, usize, u64)]; 3] = [&[], &[(false, 0, 5_000_000)], &[(true, 1, 0x8000_0000_0000_0000), (false, 0, 5_000_000)]];
+// 3, 4: one account entered twice (the second entry replaces the first: a withdrawal map has one amount per
+// account); in 4 the replaced amount is so large that a running total that forgot to drop it would overflow
+const WD: [&[(bool, usize, u64)]; 5] = [
+    &[],
+    &[(false, 0, 5_000_000)],
+    &[(true, 1, 0x8000_0000_0000_0000), (false, 0, 5_000_000)],
+    &[(false, 0, 9_000_000), (true, 1, 3), (false, 0, 4_000_000)],
+    &[(false, 2, u64::MAX), (false, 2, 7)],
+];
 const PR: [&[(usize, u64)]; 3] = [&[], &[(0, 100_000_000_000)], &[(1, 0x8000_0000_0000_0000), (0, 100_000_000_000)]];
 
 fn helper_side(c: &Case, certs: &[CertSpec]) -> (Result<Coin, JsError>, Result<Value, JsError>) {
@@ -135,7 +143,11 @@ fn table(c: &Case, certs: &[CertSpec]) -> (u128, u128) {
         dep += dep_amount(certs[*i].deposit, c.key_dep, c.pool_dep);
         imp += dep_amount(certs[*i].refund, c.key_dep, c.pool_dep);
     }
-    for (_, _, amt) in WD[c.wd] {
+    let mut per_account: std::collections::BTreeMap<(bool, usize), u64> = std::collections::BTreeMap::new();
+    for (script, i, amt) in WD[c.wd] {
+        per_account.insert((*script, *i), *amt);
+    }
+    for amt in per_account.values() {
         imp += *amt as u128;
     }
     for (_, d) in PR[c.pr] {
@@ -214,7 +226,7 @@ fn sc_certs(max_len: usize) -> impl Fn(&mut Ctx) + Sync {
             for _ in 0..n {
                 seq.push(ctx.choose_free(certs.len()));
             }
-            let wd = ctx.choose_free(3);
+            let wd = ctx.choose_free(WD.len());
             let pr = ctx.choose_free(3);
             let key_dep = *ctx.pick_free(&PARAMS);
             let pool_dep = *ctx.pick_free(&PARAMS);
@@ -319,7 +331,7 @@ pub fn scenario(name: &str, tier: Tier) -> Option<BoxedScenario> {
 pub fn run(tier: Tier, seed: u64) -> i32 {
     let mut rep = Report::new(P, tier, seed);
     let max_len = if tier.thorough() { 4 } else { 3 };
-    rep.rule = format!("all certificate sequences of length <= {} over 25 certificates (19 CDDL kinds, explicit/parameter amounts, key/script credentials) x 3 withdrawal maps x 3 proposal lists x 5x5 (key_deposit, pool_deposit); distinct = distinct argument tuples", max_len);
+    rep.rule = format!("all certificate sequences of length <= {} over 25 certificates (19 CDDL kinds, explicit/parameter amounts, key/script credentials) x 5 withdrawal maps (none, one, two, an account entered twice, an account entered twice with a first amount of 2^64-1) x 3 proposal lists x 5x5 (key_deposit, pool_deposit); distinct = distinct argument tuples", max_len);
     rep.bound("max_sequence_length", json!(max_len));
     rep.assume("pool registrations are counted as first registrations (the helpers cannot see ledger state)");
     rep.assume("repeated certificates are one element (set semantics, checked separately by C16)");
